@@ -105,6 +105,120 @@ Theorem C11_writes_are_frames :
        exists ws', decode_many (length R) ws = Ok (R, ws') /\ concat ws' = [] /\ wf_chunks ws').
 Proof. exact script_writes_are_frames. Qed.
 
+(* The first clause for EVERY client, not only well-behaved ones: whatever bytes arrive (any byte string below 2^63
+   bytes, any split into reads), whatever the handler does of what is modelled (echo or not, any message limit),
+   everything the server writes is the concatenation of the RFC 6455 5.2 layouts (shortest length form) of unmasked
+   frames, and parses back into exactly those frames under any split. *)
+Theorem C11_writes_always_frames :
+  forall (echo : bool) (limit : option nat) (cs : chunks),
+    wf_chunks cs -> Forall byte (concat cs) -> total_len cs < 2 ^ 63 ->
+    exists R, s_writes (serve echo limit cs) = map encode R /\
+      Forall (fun g => wf g /\ mask g = false /\ FrameBytes g (encode g)) R /\
+      (forall ws, wf_chunks ws -> concat ws = concat (s_writes (serve echo limit cs)) ->
+         exists ws', decode_many (length R) ws = Ok (R, ws') /\ concat ws' = [] /\ wf_chunks ws').
+Proof. exact serve_writes_always_frames. Qed.
+
+(* "a Close is answered by a Close ... dropping the stream sends a Close", for every input and every ending: the last
+   thing the server writes in a session is a Close frame — the echo of the client's Close payload when the session ended
+   with ConnectionClosed, the empty Close written by Drop in every other case (end of input, truncated frame, reserved
+   opcode, handler stopped after `limit` messages). *)
+Theorem C11_drop_sends_close :
+  forall (echo : bool) (limit : option nat) (cs : chunks),
+    exists ws p, s_writes (serve echo limit cs) = ws ++ [encode (server_frame Close p)] /\
+                 (s_final (serve echo limit cs) <> Err ConnectionClosed -> p = []).
+Proof. intros echo limit cs. exact (serve_ends_with_close echo (fuel_of cs) cs limit (fuel_of_ok cs)). Qed.
+
+(* Ending by server drop: a handler that stops after n >= 1 messages and drops the stream has received exactly the
+   messages of the shortest script prefix holding n complete messages (cut_after), has answered exactly the control
+   frames of that prefix, and the Close written by Drop follows (unless that prefix already ended with the client's
+   Close); the rest of the script is never read. *)
+Theorem C11_server_drop :
+  forall (echo : bool) (n : nat) (fs : list frame) (tail : bytes) (cs : chunks),
+    Forall client_frame fs -> script_okb false fs = true -> wf_chunks cs ->
+    concat cs = concat (map encode fs) ++ tail ->
+    (has_close fs = true \/ tail = [] \/ exists g, wf g /\ strict_prefix tail (encode g)) ->
+    let seen := cut_after (S n) fs in
+    s_msgs (serve echo (Some (S n)) cs) = messages_of None seen /\
+    s_final (serve echo (Some (S n)) cs) =
+      (if has_close seen then Err ConnectionClosed
+       else if Nat.eqb (length (messages_of None seen)) (S n) then Ok tt else Err ReadError) /\
+    s_writes (serve echo (Some (S n)) cs) =
+      map encode (if echo then echo_replies_of None seen else replies_of seen) ++
+      (if has_close seen then [] else [encode (server_frame Close [])]).
+Proof. exact serve_limit_script. Qed.
+
+Theorem C11_server_drop_at_once :
+  forall (echo : bool) (cs : chunks), serve echo (Some O) cs = mkServe [] (Ok tt) [encode (server_frame Close [])] 0.
+Proof. exact serve_limit0. Qed.
+
+(* All deliveries of the client byte stream: two splits of the same script into reads give the same session. *)
+Theorem C11_chunking_independent :
+  forall (echo : bool) (limit : option nat) (fs : list frame) (tail : bytes) (cs1 cs2 : chunks),
+    Forall client_frame fs -> script_okb false fs = true ->
+    (has_close fs = true \/ tail = [] \/ exists g, wf g /\ strict_prefix tail (encode g)) ->
+    wf_chunks cs1 -> concat cs1 = concat (map encode fs) ++ tail ->
+    wf_chunks cs2 -> concat cs2 = concat (map encode fs) ++ tail ->
+    s_msgs (serve echo limit cs1) = s_msgs (serve echo limit cs2) /\
+    s_final (serve echo limit cs1) = s_final (serve echo limit cs2) /\
+    s_writes (serve echo limit cs1) = s_writes (serve echo limit cs2).
+Proof. exact serve_chunking_independent. Qed.
+
+(* ---- blocking and non-blocking receive ---- *)
+
+(* The non-blocking frame read: with at least one byte available (k >= 1; 1, 2 or more) and a peer that has not closed,
+   it returns exactly what the blocking frame read returns on the same reader; with nothing available (k = 0), or at
+   end of stream, it reports "nothing yet" without touching the reader. *)
+Theorem C11_frame_nb_agrees :
+  forall (k : N) (cs : chunks),
+    wf_chunks cs ->
+    (1 <= k -> cs <> [] -> frame_nb k cs = Some (decode_m cs)) /\ frame_nb 0 cs = None /\ frame_nb k [] = None.
+Proof. intros k cs W. exact (conj (fun H1 H2 => frame_nb_agrees k cs H1 W H2) (conj (frame_nb_zero cs) (frame_nb_eof k))). Qed.
+
+(* One recv_nonblocking call against one recv call on the same reader, for EVERY arrival pattern `avail` (the number of
+   bytes available at each non-blocking header read of the call): either the call returns a result, and then it is the
+   blocking call's result, with the same replies written and the same bytes left; or it reports "nothing yet", and then
+   (a) it has only consumed whole Ping/Pong frames and written the Pongs, (b) the blocking call on the original reader
+   equals those Pongs followed by the blocking call on what is left, and (c) no byte of the next frame had arrived when
+   it gave up (k = 0 at that read), or the peer has closed. *)
+Theorem C11_nb_agrees :
+  forall (avail : N -> N) (cs : chunks),
+    wf_chunks cs ->
+    match n_res (recv_nb avail cs) with
+    | Some r =>
+      r_res (recv cs) = r /\ r_writes (recv cs) = n_writes (recv_nb avail cs) /\ r_rest (recv cs) = n_rest (recv_nb avail cs)
+    | None =>
+      wf_chunks (n_rest (recv_nb avail cs)) /\
+      r_res (recv cs) = r_res (recv (n_rest (recv_nb avail cs))) /\
+      r_writes (recv cs) = n_writes (recv_nb avail cs) ++ r_writes (recv (n_rest (recv_nb avail cs))) /\
+      r_rest (recv cs) = r_rest (recv (n_rest (recv_nb avail cs))) /\
+      (n_rest (recv_nb avail cs) = [] \/ avail (total_len cs - total_len (n_rest (recv_nb avail cs))) = 0)
+    end.
+Proof. exact recv_nb_refines. Qed.
+
+(* k = 0 at the start of the call: nothing yet, no byte consumed, nothing written. *)
+Theorem C11_nb_nothing_yet :
+  forall (avail : N -> N) (cs : chunks), avail 0 = 0 -> recv_nb avail cs = mkNb None [] cs 0.
+Proof. exact recv_nb_nothing. Qed.
+
+(* "Blocking and non-blocking receive agree on the messages": a handler that polls recv_nonblocking, under ANY sequence of
+   arrival patterns, until a call fails, has received the messages, the final error and caused the writes of the blocking
+   session on the same stream; if it stops polling earlier it has received a prefix, and the blocking loop run on the
+   remaining stream delivers exactly the rest. *)
+Theorem C11_polling_agrees :
+  forall (avs : list (N -> N)) (cs : chunks),
+    wf_chunks cs ->
+    let p := poll_loop avs cs in
+    if p_open p then
+      s_msgs (serve false None cs) = poll_msgs (p_results p) ++ s_msgs (serve false None (p_rest p)) /\
+      s_final (serve false None cs) = s_final (serve false None (p_rest p)) /\
+      s_writes (serve false None cs) = p_writes p ++ s_writes (serve false None (p_rest p)) /\
+      poll_final (p_results p) = Ok tt
+    else
+      s_msgs (serve false None cs) = poll_msgs (p_results p) /\
+      s_final (serve false None cs) = poll_final (p_results p) /\
+      s_writes (serve false None cs) = p_writes p.
+Proof. exact poll_then_serve. Qed.
+
 (* ---- the code as it was at the pinned commit ---- *)
 (* F20: Ping "hi", an empty Ping and Close 1000 were answered with the four bytes 68 69 03 e8 — the bare payloads, which
    are not frames (a reader gets a read error) — instead of 8a 02 68 69 | 8a 00 | 88 02 03 e8. *)
@@ -135,13 +249,40 @@ Proof. exact recv_nb_old_refuted. Qed.
 Example C11_example_frames : Forall client_frame [ex_ping; ex_ping0; ex_text; ex_close].
 Proof. exact ex_client_frames. Qed.
 
+(* a script with a message in two fragments with a Ping between them, an empty Ping, a whole message, a Close, and a
+   frame after the Close; its meaning; what a handler that drops after one message sees *)
+Example C11_example_script :
+  Forall client_frame ex_script /\ script_okb false ex_script = true /\ has_close ex_script = true /\
+  messages_of None ex_script = [mkMsg true [104; 101; 108; 108; 111]; mkMsg true [104; 101; 108; 108; 111]] /\
+  map encode (replies_of ex_script) = [[138; 2; 104; 105]; [138; 0]; [136; 2; 3; 232]] /\
+  cut_after 1 ex_script = [ex_frag1; ex_ping; ex_frag2].
+Proof. exact ex_script_ok. Qed.
+
+(* the model run on that script, delivered one byte per read, echoing *)
+Example C11_example_run :
+  let o := serve true None (bytewise (concat (map encode ex_script))) in
+  s_msgs o = messages_of None ex_script /\ s_final o = Err ConnectionClosed /\
+  s_writes o = [[138; 2; 104; 105]; [129; 5; 104; 101; 108; 108; 111]; [138; 0]; [129; 5; 104; 101; 108; 108; 111]; [136; 2; 3; 232]].
+Proof. exact ex_script_run. Qed.
+
 Print Assumptions C11_handshake_accept.
 Print Assumptions C11_handshake_constants.
 Print Assumptions C11_handshake_no_key.
 Print Assumptions C11_upgrade_handoff.
 Print Assumptions C11_recv_delivers.
 Print Assumptions C11_writes_are_frames.
+Print Assumptions C11_writes_always_frames.
+Print Assumptions C11_drop_sends_close.
+Print Assumptions C11_server_drop.
+Print Assumptions C11_server_drop_at_once.
+Print Assumptions C11_chunking_independent.
+Print Assumptions C11_frame_nb_agrees.
+Print Assumptions C11_nb_agrees.
+Print Assumptions C11_nb_nothing_yet.
+Print Assumptions C11_polling_agrees.
 Print Assumptions C11_replies_old_refuted.
 Print Assumptions C11_drop_old_refuted.
 Print Assumptions C11_nonblocking_old_refuted.
 Print Assumptions C11_example_frames.
+Print Assumptions C11_example_script.
+Print Assumptions C11_example_run.
